@@ -219,6 +219,27 @@ def snapshot(x):
     try:
         return copy.deepcopy(x)
     except Exception:
+        pass
+    # an attribute that cannot be deep-copied (asyncio.Event, emitters) must not make the whole `old` object alias the live one:
+    # copy attribute by attribute, sharing only what cannot be copied
+    try:
+        try:
+            y = copy.copy(x)
+        except Exception:
+            y = type(x).__new__(type(x))  # e.g. pyee emitters built without __init__ (no _lock to pickle)
+            for k, v in list(vars(x).items()):
+                object.__setattr__(y, k, v)
+        for k, v in list(vars(x).items()):
+            try:
+                object.__setattr__(y, k, copy.deepcopy(v))
+            except Exception:
+                if isinstance(v, asyncio.Event):
+                    ev = asyncio.Event()
+                    if v.is_set():
+                        ev.set()
+                    object.__setattr__(y, k, ev)
+        return y
+    except Exception:
         return x
 
 
@@ -313,6 +334,8 @@ def run_native(top, registry, state, extra_check=None):
             res = fn(**args)
         else:
             fn = resolve(top.target)
+            if isinstance(fn, property):
+                fn = fn.fset  # the contract of a property is the contract of its setter (the last definition, see source.find_def)
             kwargs = dict(params)
             if 'self' in kwargs:
                 selfv = kwargs.pop('self')
